@@ -14,7 +14,7 @@ import glob, json, os, re, shutil
 V = os.path.dirname(os.path.dirname(os.path.abspath(__file__)))
 RES = "/tmp/mut/eval_results"
 out_root = os.path.join(V, "seeded")
-WAVE = {"out": 1, "out2": 2, "out2r": 2, "out3": 3}
+WAVE = {"out": 1, "out2": 2, "out2r": 2, "out3": 3, "out3r": 3}
 
 
 def load(p):
@@ -52,7 +52,7 @@ for rp in sorted(glob.glob(os.path.join(RES, "final-*.json"))):
     if not m:
         continue
     sub, pid, k = m.group(1), m.group(2), m.group(3)
-    name = "%s-w%dm%s%s" % (pid, WAVE[sub], k, "r" if sub == "out2r" else "")
+    name = "%s-w%dm%s%s" % (pid, WAVE[sub], k, "r" if sub.endswith("r") else "")
     r = load(rp)
     if r is None:
         rejected.append({"name": name, "why": "result file unparsable"})
@@ -73,7 +73,7 @@ for rp in sorted(glob.glob(os.path.join(RES, "final-*.json"))):
             shutil.copy(os.path.join(src, f), os.path.join(dst, f))
     agent = agent_meta(src)
     hist = []
-    early = {"out": ["%s-m%s.json" % (pid, k)], "out2": ["w2-%s-m%s.json" % (pid, k)], "out2r": [], "out3": ["w3-%s-m%s.json" % (pid, k)]}[sub]
+    early = {"out": ["%s-m%s.json" % (pid, k)], "out2": ["w2-%s-m%s.json" % (pid, k)], "out2r": [], "out3": ["w3-%s-m%s.json" % (pid, k)], "out3r": []}[sub]
     for label, fn in [("first evaluation, against the checks as they were when the change was produced", f) for f in early] + \
                      [("re-evaluation after the checks were strengthened", "re-%s-%s-m%s.json" % (sub, pid, k))]:
         b = brief(load(os.path.join(RES, fn)))
@@ -98,8 +98,8 @@ for rp in sorted(glob.glob(os.path.join(RES, "final-*.json"))):
         "caught_by_quick_check": bool(r.get("caught")),
         "history": hist,
     }
-    if sub == "out2r":
-        meta["note"] = "the author's patch was written against the tree before fix f91fa6e; this is the same change re-applied by hand to the current code"
+    if sub.endswith("r"):
+        meta["note"] = "the author's patch was written against the tree before a later fix: commit touched the same lines; this is the same change re-applied by hand to the current code"
     json.dump(meta, open(os.path.join(dst, "meta.json"), "w"), indent=1)
     keys = sorted({re.search(r"key=(\S+)", l).group(1) for c in r.get("checks", {}).values() for l in c.get("lines", []) if l.startswith("VIOLATION") and re.search(r"key=(\S+)", l)})
     first = hist[0]["caught"] if hist else None
